@@ -56,6 +56,9 @@ def run(ck):
     from ..report import RuleView
     from . import c08
     c08._resolve_conservation(RuleView(ck, {"C08.5": "C10.7"}))
+    ck.clause("C10.11", "where the rest of a molecule can be placed does not depend on what other molecules of the run mapped to: the "
+                        "second pass re-aligns against the references as received (as C08.13)")
+    c08._aligned_rest(RuleView(ck, {"C08.13": "C10.11"}), {}, None)
     from ..rules.iters import run_iterator_rule
     n_b = run_iterator_rule(ck, "C10.5")
     ck.floor("C10.5 single-use iterators bound to a local name (repository-wide)", n_b, 6)
@@ -180,7 +183,20 @@ def _is_module_level(f, name: str) -> bool:
     return True
 
 
-def module_state(ck, fns=None, floor=120):
+def _evidently_scalar(f, stmt) -> bool:
+    """the stored value is a number / string by its own look: a literal, or a parameter annotated int / float / bool / str"""
+    v = getattr(stmt, "value", None)
+    if isinstance(v, ast.Constant) and (v.value is None or isinstance(v.value, (int, float, bool, str))):
+        return True
+    if isinstance(v, ast.Name):
+        for pp in f.params:
+            a = getattr(pp, "annotation", None)
+            if pp.name == v.id and a is not None and ast.unparse(a) in ("int", "float", "bool", "str"):
+                return True
+    return False
+
+
+def module_state(ck, fns=None, floor=120, skip_scalar=False):
     ctx = ck.ctx
     p = ctx.p
     if fns is None:
@@ -197,6 +213,8 @@ def module_state(ck, fns=None, floor=120):
         for attr, stmt in E.attribute_stores(f):
             bt = ctx.t.type_of(f, attr.value)
             if isinstance(bt, (ClsT, ModT)):
+                if skip_scalar and _evidently_scalar(f, stmt):
+                    continue          # shared state all the same (C10.1), but a number cannot have "another length"
                 ck.violation("C10.1", short(f) + ":store:" + ast.unparse(attr), where(f, stmt),
                              "class-level / module-level attribute written at run time: shared by every query handled later",
                              found=ast.unparse(stmt)[:120], required="no run-time write to shared objects")
@@ -303,14 +321,20 @@ def pair_parser_lookups(ck, rule):
     for cname in ("XmapAlignmentPairWithDistanceParser", "SimulationAlignmentPairWithDistanceParser"):
         m = p.find_method(cname, "parse")
         n = 0
-        seen = set()
-        for pa in explore(ck, m, unroll=(0, 1)):
+        seen = {}                 # lookup statement -> kind ('referenceId' / 'queryId') judged on some path
+        others = {}               # lookup statement -> values it takes on the paths where it is not a selection from the list
+        paths = explore(ck, m, unroll=(0, 1))
+        for pa in paths:
             for e in pa.events:
-                if e.kind != "assign" or not isinstance(e.node, ast.Assign) or id(e.node) in seen:
+                if e.kind != "assign" or not isinstance(e.node, ast.Assign):
                     continue
+                hit = False
                 for src, idname in ((self_attr("references"), "referenceId"), (self_attr("queries"), "queryId")):
                     if _is_direct_selection(e.term, src):
-                        seen.add(id(e.node))
+                        hit = True
+                        if (id(e.node), idname) in seen:
+                            continue
+                        seen[(id(e.node), idname)] = e.node
                         r = _selection_by_id(ctx, e.term, src, "moleculeId", V(idname))
                         n += 1
                         w = where(m, e.node)
@@ -322,10 +346,32 @@ def pair_parser_lookups(ck, rule):
                             ck.violation(rule, f"{cname}.parse:{idname}", w, "map is not looked up by the matching molecule id",
                                          found=r if r != "by-position" else T.show(e.term)[:120],
                                          required=f"moleculeId == {idname}")
+                if not hit:
+                    others.setdefault(id(e.node), []).append((e.term, e.node))
         ck.floor(f"{rule} map lookups in {cname}.parse", n, 2)
-
-
-
+        # a lookup statement that is a selection on one path must be one on every path: a memo (self.<cache>[id]) that answers on the
+        # others is judged by what it is keyed with
+        caches = {}
+        for (nid, idname), node in seen.items():
+            for t, nd in others.get(nid, []):
+                w = where(m, nd)
+                if t[0] == "idx" and t[1][0] == "attr" and t[1][1] == V("self"):
+                    caches.setdefault(t[1], {}).setdefault(idname, (t, w))
+                else:
+                    raise AnalysisError(f"{w}: the map of a record is a list selection on one path and something else on another: {T.show(t)[:160]}")
+        for cache, kinds in caches.items():
+            if len(kinds) > 1:
+                t, w = sorted(kinds.values(), key=lambda x: x[1])[0]
+                ck.violation(rule, f"{cname}.parse:shared-cache", w,
+                             f"reference and query maps are remembered in one table ({T.show(cache)}) keyed by the molecule id alone: a "
+                             "query and a reference with the same id (query 1 on reference 1) answer for each other, and the "
+                             "coordinates of the pairs come from the wrong molecule", found=T.show(t)[:120],
+                             required="one lookup per kind of map (or a key that names the kind)")
+            else:
+                for idname, (t, w) in kinds.items():
+                    ok = t[2] == V(idname)
+                    ck.judge(ok, rule, f"{cname}.parse:{idname}:cache", w, f"a remembered map is asked for with {idname}",
+                             found=T.show(t)[:120], required=f"{T.show(cache)}[{idname}]")
 
 def lookups(ck):
     ctx = ck.ctx
@@ -388,10 +434,13 @@ def lookups(ck):
 def id_filters(ck, rule_filter, rule_order):
     ctx = ck.ctx
     p = ctx.p
-    rm = p.get_function("src.program:Program.__readMaps")
     from ..callgraph import bind_args
+    from ..rules.common import reachable_only_from
+    # the map-reading part of Program: its constructor and the private helpers (and their lambdas) only it reaches
+    init = p.get_function("src.program:Program.__init__")
+    readers = [f for f in p.nontest_functions() if f.module is init.module and reachable_only_from(ctx, f, "Program.__init__")]
     n = 0
-    for site in ctx.cg.sites.get(rm.qualname, []) + [s for ch in rm.children for s in ctx.cg.sites.get(ch.qualname, [])]:
+    for site in [s for f in readers for s in ctx.cg.sites.get(f.qualname, [])]:
         for c in site.repo_callees():
             if c.kind == "fn" and c.fn.name in ("readReferences", "readQueries", "readQuery", "readReference"):
                 n += 1
